@@ -257,6 +257,7 @@ def _single_tokens(maxlen):
 
 def generate(tier, rng):
     quick = tier == "quick"
+    wide0 = TOKEN_CHARS + WS + ["'", '"', "\\", " "]
     # fixed witnesses of the behaviours named in the design (repaired D8, nesting, empty token, `--`)
     for s in ["\\", "a\\", "'a\\", "''", "'' \"\"", "a''", "'a", "\"'x'\"", "'\"", "-- -v", "-v -- -q --", "a\xa0b\u3000c",
               "\x1c\x1d\x1e\x1f", "caf\xe9 '\U0001F600 \u2713'", "--to='a b' x", "\\'", "\\\"", "'\\\\'"]:
@@ -264,6 +265,16 @@ def generate(tier, rng):
     for depth in (10, 50, 200, 400):
         yield {"k": "d", "s": ("'\"" * depth)[:depth]}
         yield {"k": "d", "s": ("'\"" * depth)[:depth] + "x"}
+    # ---- the same strings after EARLIER tokenisations in the same process, including ones that ended in an
+    # exception half-way (nesting beyond the recursion limit = finding D30, a non-string): a tokenisation is a
+    # function of its string
+    pres = [[{"deep": 3000}], [{"bytes": "ab cd"}], ["'open"], ["a\\"], [{"deep": 3000}, "x y"], ["a b c"], [{"deep": 2999}]]
+    shorts = ["", "a", "'", "\"", "\\", "ab", "a b", " ", "-", "--", "''", "a'"]
+    for pre in pres:
+        for t in shorts:
+            yield {"k": "s", "s": t, "pre": pre}
+    for _ in range(300 if quick else 5000):
+        yield {"k": "s", "s": "".join(rng.choice(wide0) for _ in range(rng.randrange(0, 4))), "pre": rng.choice(pres)}
     nq, nneg, na = (20000, 5000, 4000) if quick else (300000, 60000, 60000)
     # interleave the exhaustive enumeration with the seeded streams so that a cut at the time budget
     # (reported, and clears the `exhaustive` flag) never starves one stream completely
@@ -421,6 +432,13 @@ def _through_clikit(make_raw):
 def run_impl(case):
     from clikit.args import StringArgs, ArgvArgs
     k = case["k"]
+    for pre in case.get("pre", []):
+        # earlier tokenisations, whatever became of them
+        x = pre if isinstance(pre, str) else ("'\"" * pre["deep"])[:pre["deep"]] if "deep" in pre else pre["bytes"].encode()
+        try:
+            StringArgs(x)
+        except Exception:  # noqa: BLE001
+            pass
     if k == "v":
         return {"string": "", "raw": _argv_raw(case["argv"])}
     if k in ("s", "d"):
